@@ -16,7 +16,8 @@
 (***************************************************************************)
 EXTENDS TextStream, P_TextWrap, FiniteSetsExt, Json, TLC
 
-CONSTANTS EncSet, MaxChars, MaxCuts, MaxSends, Emit
+CONSTANTS EncSet, MaxChars, MaxCuts, MaxSends, Emit,
+          NSlices, Slice     \* of the texts of full length MaxChars only slice Slice of NSlices is taken
 
 VARIABLES case, outs, bad
 
@@ -38,6 +39,8 @@ Shapes == CASE EncSet = 0 -> {U8, U8Sig, U16, U16X, U32, U32X, L1}
 
 RECURSIVE SumSeq(_)
 SumSeq(s) == IF s = <<>> THEN 0 ELSE Head(s) + SumSeq(Tail(s))
+
+WsVal(ws) == SumSeq([i \in 1..Len(ws) |-> i * ws[i]])
 
 SetMin(S) == CHOOSE x \in S : \A y \in S : x <= y
 
@@ -64,7 +67,7 @@ Walk(n, mode, os) ==
 
 Init ==
   \E sh \in Shapes, n \in 0..MaxChars :
-    \E ws \in [1..n -> sh.w] :
+    \E ws \in {x \in [1..n -> sh.w] : n < MaxChars \/ WsVal(x) % NSlices = Slice} :
       \E mode \in {"recv", "rt"} :
         \E lens \in (IF mode = "recv"
                      THEN {LensOf(cuts, 1, sh.bw + SumSeq(ws)) : cuts \in CutSets(sh.bw + SumSeq(ws))}
